@@ -85,19 +85,29 @@ Theorem oracle_holds c : valid c -> known c = 0 -> oracle c (run c) = true.
 Proof.
   unfold valid, known. intros Hin Hk. unfold oracle. rewrite Hin. cbn [negb].
   unfold inscope in Hin. repeat (apply andb_true_iff in Hin as [Hin ?]).
-  rename H into Hnan, H0 into Hwt, H1 into Hkind. rename Hin into Hvalid.
+  rename H into Hnan, H0 into Hwt, H1 into Hkind, H2 into Hm. rename Hin into Hvalid.
   change only_thumbprint_skipped with true in Hk. rewrite Hwt in Hk. cbn [andb] in Hk.
   destruct (wt cfg_schema true FUEL (root c) (c_val c)) eqn:Hwt1; [|discriminate Hk].
   destruct (save_load_roundtrip c Hwt1) as (y & Hy & Hde).
-  unfold run, run_with. rewrite Hvalid. cbn [negb]. rewrite Hy, Hde.
-  cbn [list_eqb Z.eqb negb andb].
-  rewrite val_eqb_refl. apply negb_true_iff in Hnan. rewrite Hnan. reflexivity.
+  unfold run, run_with. rewrite Hvalid, Hm. cbn [Bool.eqb negb]. rewrite Hy, Hde.
+  rewrite val_eqb_refl, Hm. apply negb_true_iff in Hnan. rewrite Hnan. reflexivity.
+Qed.
+
+(* the loaded configuration is still valid: is_valid (as modelled) of what is read back from the file
+   is is_valid of the original *)
+Theorem loaded_still_valid c y v' : wt cfg_schema true FUEL (root c) (c_val c) = true ->
+  ser cfg_schema FUEL (root c) (c_val c) = Some y -> de cfg_schema FUEL (root c) y = Some v' ->
+  is_valid_m (c_kind c) v' = is_valid_m (c_kind c) (c_val c).
+Proof.
+  intros Hwt Hy Hde. destruct (save_load_roundtrip c Hwt) as (y0 & Hy0 & Hde0).
+  rewrite Hy in Hy0. injection Hy0 as <-. rewrite Hde in Hde0. injection Hde0 as ->. reflexivity.
 Qed.
 
 (* `save` as it is now never panics: every outcome is refused / Err / written *)
 Theorem never_panics c : run c <> [-2].
 Proof.
   unfold run. change save_unwraps_serializer with false. unfold run_with.
+  destruct (negb (Bool.eqb (c_is_valid c) (is_valid_m (c_kind c) (c_val c)))); [discriminate|].
   destruct (negb (c_is_valid c)); [discriminate|].
   destruct (ser cfg_schema FUEL (root c) (c_val c)); discriminate.
 Qed.
